@@ -6,10 +6,14 @@ from vf.runner import UnitSpec
 CLAIMS = ['host', 'range', 'align']
 
 
-def shard_units(tier, claims, mode=None, tag='', arch=7, sec=True, seed=0, **kw):
+def shard_units(tier, claims, mode=None, tag='', arch=7, sec=True, seed=0, always=(), **kw):
     if tier == 'quick':
         sh = sweep.quick_sample(sweep.arm_shards(), 24, seed) + sweep.quick_sample(sweep.t16_shards(), 24, seed) + \
             sweep.quick_sample(sweep.t32_shards(), 24, seed)
+        have = set(n for n, _ in sh)
+        for n, pins in sweep.arm_shards() + sweep.t16_shards() + sweep.t32_shards():
+            if n.split('/list')[0] in always and n not in have:
+                sh.append((n, pins))
     else:
         sh = sweep.arm_shards() + sweep.t16_shards() + sweep.t32_shards()
     us = []
